@@ -1319,6 +1319,13 @@ class Engine:
                 lt = (c.extra.get('locals', {}) if c is not None else {}).get(tgt.id)
                 if lt is not None:
                     v = T.coerce(v, T.parse_ty(lt))
+            elif isinstance(v, V) and v.ty == ANY:
+                # an untyped value (what a Deferred fired with, the result of an external call) bound to a local the
+                # sidecar declares: taken at the declared type, otherwise unconstrained (a typing assumption)
+                c = self.contract_for_frame(fr)
+                lt = (c.extra.get('locals', {}) if c is not None else {}).get(tgt.id)
+                if lt is not None:
+                    v = self.fresh(T.parse_ty(lt), tgt.id)
             fr.assign(tgt.id, v)
             return
         if isinstance(tgt, (ast.Tuple, ast.List)):
